@@ -14,7 +14,7 @@ import (
 func init() {
 	register(&Prop{
 		ID:          "C20",
-		Explanation: "Decides the synchronisation discipline (not the schedules): every access to htpasswdMap.users outside the construction set (functions whose receiver is a fresh, unpublished allocation) happens on paths where the map's rwm is held — read or write lock for loads, write lock for stores — by a must-hold lock walk (Lock/RLock gen, Unlock/RUnlock kill, deferred unlock = held to exit); no map reachable through a published htpasswdMap is updated or deleted from outside the construction set, the reload installs a map built locally by createHtpasswdMap, and Validate answers true only by comparing the presented password with the entry it read from users; the address of UserMap.m flows only into atomic.LoadPointer/StorePointer, the stored pointers are addresses of local maps that receive no update after the store, and readers only index; in both loaders the swap is reachable only on paths where every CSV read returned without error (or io.EOF for incremental reads) and, for htpasswd, createHtpasswdMap returned no error. Added during the build: reloads are totally ordered and none is skipped — the watcher package starts exactly one goroutine, file events are received at one site, every received event goes to filterEvent, filterEvent is driven only from the event loop and calls action() synchronously for every selected event (R5, partly shared with C08.R6). Round 3: a reload installs only a non-empty freshly parsed map and the reloaded map is the only basic.Validator implementation (R6). Round 4: the configured paths of the two credential files are never rewritten after loading and flow only to their loaders' constructors, emptiness tests, log lines and a short list of library calls that neither hold the file nor change the option (R7). Round 5: the action handed to the file watcher re-reads the file on every one of its paths (R8).",
+		Explanation: "Decides the synchronisation discipline (not the schedules): every access to htpasswdMap.users outside the construction set (functions whose receiver is a fresh, unpublished allocation) happens on paths where the map's rwm is held — read or write lock for loads, write lock for stores — by a must-hold lock walk (Lock/RLock gen, Unlock/RUnlock kill, deferred unlock = held to exit); no map reachable through a published htpasswdMap is updated or deleted from outside the construction set, the reload installs a map built locally by createHtpasswdMap, and Validate answers true only by comparing the presented password with the entry it read from users; the address of UserMap.m flows only into atomic.LoadPointer/StorePointer, the stored pointers are addresses of local maps that receive no update after the store, and readers only index; in both loaders the swap is reachable only on paths where every CSV read returned without error (or io.EOF for incremental reads) and, for htpasswd, createHtpasswdMap returned no error. Added during the build: reloads are totally ordered and none is skipped — the watcher package starts exactly one goroutine, file events are received at one site, every received event goes to filterEvent, filterEvent is driven only from the event loop and calls action() synchronously for every selected event (R5, partly shared with C08.R6). Round 3: a reload installs only a non-empty freshly parsed map and the reloaded map is the only basic.Validator implementation (R6). Round 4: the configured paths of the two credential files are never rewritten after loading and flow only to their loaders' constructors, emptiness tests, log lines and a short list of library calls that neither hold the file nor change the option (R7). Round 5: the action handed to the file watcher re-reads the file on every one of its paths (R8). Round 6: a validation consults the reloadable e-mail list at most once, and each lookup loads the published map exactly once (R9).",
 		NotDecided:  "interleavings themselves (this is the necessary discipline a race detector would sample); fsnotify event semantics and file-system atomicity of rewrites.",
 		Run:         runC20,
 	})
@@ -81,6 +81,7 @@ func runC20(c *Ctx) {
 	r.Rule("R6-reload-complete", "a reload installs only a non-empty freshly parsed map; the reloaded map is the only basic.Validator implementation", 2)
 	r.Rule("R7-credential-path-as-configured", "the configured paths of the htpasswd and authenticated-e-mails files are never rewritten after loading and flow only to their loader/watcher constructors (besides emptiness tests and log lines)", 2)
 	r.Rule("R8-reload-action-unconditional", "the action handed to the file watcher re-reads the file on every path (no gate on modification time, size or a previous result), and the file it re-reads is the one being watched", 2)
+	r.Rule("R9-one-snapshot-per-validation", "a validation consults the reloadable e-mail list once: no path of the validator closure calls UserMap.IsValid twice, and IsValid loads the published map once", 2)
 	r.Rule("R4-failed-parse-keeps-old", "the swap is reachable only after error-free parsing", 2)
 
 	usersF := c.Field("R1-lock-discipline", "pkg/authentication/basic.htpasswdMap.users")
@@ -315,6 +316,7 @@ func runC20(c *Ctx) {
 	runC20R5(c, "R5-serial-reloads")
 	runC20R7(c, "R7-credential-path-as-configured")
 	runC20R8(c, "R8-reload-action-unconditional")
+	runC20R9(c, "R9-one-snapshot-per-validation")
 	runC20R6(c, "R6-reload-complete")
 
 	// ---- R3 ---------------------------------------------------------------------------------
@@ -928,5 +930,56 @@ func runC20R8(c *Ctx, rule string) {
 	}
 	if n == 0 {
 		c.R.Unknown(rule, "action|none", "-", "no caller of WatchFileForUpdates found")
+	}
+}
+
+// runC20R9: each IsValid is one atomic load of the published map, so each answers from a complete list — but an answer
+// assembled from two of them can mix the old list with the new one (false for an address both lists allow, when a
+// reload lands between the lookups). On every path of the validator closure built by newValidatorImpl UserMap.IsValid
+// is called at most once, and IsValid itself performs exactly one atomic.LoadPointer on each path.
+func runC20R9(c *Ctx, rule string) {
+	vfn := c.Fn(rule, "main.newValidatorImpl$1")
+	isValid := c.Fn(rule, "(*main.UserMap).IsValid")
+	if vfn == nil || isValid == nil {
+		return
+	}
+	key := "lookups-per-validation|" + fnKey(vfn)
+	worst := 0
+	var at ssa.Instruction
+	c.WalkShallow(rule, vfn, func(p *walk.Path) {
+		n := len(p.Find(walk.Static(isValid), p.End()))
+		if n > worst {
+			worst, at = n, p.Exit
+			if n > 1 {
+				c.bad(rule, key, p.Exit, sprintf("one validation looks the address up in the reloadable list %d times: a reload between the lookups makes the answer a mixture of the old and the new list (an address both allow can be refused)", n), p, p.End())
+			}
+		}
+	})
+	if worst <= 1 {
+		pos := c.P.Pos(vfn.Pos())
+		if at != nil {
+			pos = c.pos(at)
+		}
+		c.R.OK(rule, key, pos, "at most one UserMap.IsValid per validation")
+	}
+	key = "loads-per-lookup|" + fnKey(isValid)
+	bad := false
+	c.WalkShallow(rule, isValid, func(p *walk.Path) {
+		if _, ok := p.Exit.(*ssa.Return); !ok || bad {
+			return
+		}
+		n := 0
+		for _, cl := range p.Calls() {
+			if sc := cl.C.StaticCallee(); sc != nil && sc.String() == "sync/atomic.LoadPointer" {
+				n++
+			}
+		}
+		if n != 1 {
+			bad = true
+			c.bad(rule, key, p.Exit, sprintf("IsValid loads the published map %d times on this path", n), p, p.End())
+		}
+	})
+	if !bad {
+		c.R.OK(rule, key, c.P.Pos(isValid.Pos()), "exactly one atomic.LoadPointer per lookup")
 	}
 }
